@@ -738,6 +738,17 @@ def gen_deerr_extra(rng, tier):
     add("enum3", "e = { S = { } }\n", "e/S", "e.S", "variant", keys_alt="e")
     add("enum3", "e = { U = 1 }\n", "e/U", "e.U", "variant", keys_alt="e")
     add("enum3", "e = { U = [1] }\n", "e/U", "e.U", "variant", keys_alt="e")
+    # payload shapes of toml_edit/src/de/table_enum.rs that measured coverage showed no case reached: a unit variant given a
+    # non-empty table (inline and [header] form: two copies of the code), and a tuple variant written as a
+    # [header] table with a wrong index key / a wrong length
+    add("enum3", "e = { U = { x = 1 } }\n", "e/U", "e.U", "variant", keys_alt="e")
+    add("enum3", "[e.U]\nx = 1 # %s\n" % mb, "e/U", "e.U", "variant", keys_alt="e")
+    add("enum3", "[e.T]\n0 = 1\n1 = 'x'\n", "e/T/1", "e.T.1", "variant", keys_alt="e")
+    add("enum3", "[e.T]\n0 = 1\n2 = 2\n", "e/T/2/@", "e.T", "variant", keys_alt="e")
+    add("enum3", "[e.T]\n0 = 1\n", "e/T", "e.T", "variant", keys_alt="e")
+    add("enum3", "e = { T = { 0 = 1 } }\n", "e/T", "e.T", "variant", keys_alt="e")
+    add("enum3", "e = { T = { 0 = 1, 1 = 2, 2 = 3 } }\n", "e/T", "e.T", "variant", keys_alt="e")
+    add("enum3", "e = { T = 1 }\n", "e/T", "e.T", "variant", keys_alt="e")
     add("enum3", "e = { Q = 1 }\n", "e/Q/@", "e", "variant-key")
     add("enum3", "e = { }\n", "e", "e", "enum-shape")
     add("enum3", "e = { N = 1, T = 2 }\n", "e", "e", "enum-shape")
